@@ -51,6 +51,26 @@ def check_doc(acc, job, with_key=True):
             acc.violation(Viol('well-formed', sym, dict(case, encoding=enc), 'source grid minus comments/null rows', detail))
 
 
+def _repetitive_job(seed):
+    acc = Acc()
+    for m in D.repetitive_models(seed):
+        text = m.text()
+        case = {'text': text, 'headers': m.headers, 'seq': ['repetitive'], 'seed': seed}
+        acc.count('evaluations')
+        acc.nontriv(digest(text))
+        doc, errs = kp.loads(text)
+        if errs:
+            acc.violation(Viol('well-formed', 'import-errors', case, 'no errors', [e.encoding for e in errs][:4]))
+            continue
+        for enc, E in (('ekern', kp.Encoding.eKern), ('kern', None), ('ekern', kp.Encoding.eKern)):
+            out = kp.dumps(doc, encoding=E) if E else kp.dumps(doc)
+            acc.count('transitions')
+            acc.count('traces')
+            for sym, detail in compare_export(m, out, enc)[:2]:
+                acc.violation(Viol('well-formed', sym, dict(case, encoding=enc), 'source grid minus comments/null rows', detail))
+    return acc
+
+
 def _job(jobs):
     acc = Acc()
     for j in jobs:
@@ -90,10 +110,13 @@ def run(ctx):
         jobs += list(D.deviation_docs([['**kern', '**text']], 3, (ctx.seed,), menu=['d', 'z', 'S0', 'J0', 'g', 'i']))
     jobs += token_skeleton_jobs(ctx.seed)
     longs = D.long_docs(ctx.seed) + D.long_docs(ctx.seed + 4) + D.wide_docs(ctx.seed) + D.wide_docs(ctx.seed + 1)
+    ctx.pmap(_repetitive_job, [ctx.seed, ctx.seed + 1], chunksize=1)
     ctx.pmap(_job, [[j] for j in longs] + list(X.chunks(jobs, 150)), chunksize=1)
 
 
 def replay(case):
     acc = Acc()
+    if case.get('seq') == ['repetitive']:
+        return _repetitive_job(case['seed']).viol
     check_doc(acc, (case['headers'], case['seq'], case['seed']))
     return acc.viol
